@@ -523,6 +523,7 @@ E_CLASS = {     # same vocabulary as oracle 1 (pclass / role), so that one root 
     's % n': ('Tuple', ['item', 'item']), 's.upper': ('Call', ['args']), '.5': ('BinOp', ['left']), 'negconst**': ('BinOp', ['right']), 'negconst.real': ('BinOp', ['right']), 'float*': ('BinOp', ['left']), 'abs-like': ('Call', ['args']),
 }
 assert set(E_CLASS) == set(E_OPS), set(E_CLASS) ^ set(E_OPS)
+E_ALONE = {'lambda': 'Primary[base]<-Lambda'}      # `(lambda v: v + _)(_)`: the call's base is a lambda
 E_PRECISE = {'neg', 'inv', 'not', 'pos', '+', '-', '*', '//', '%', '/', '**', '<<', '>>', '&', '|', '^', '<', '==', 'in', 'is not', 'chain', 'or', 'and'}
 def e_sig(m):
     if isinstance(m, str): return '_'
@@ -535,7 +536,7 @@ def e_sig(m):
         inner = e_sig(c)
         if '<-' in inner: child = '(%s)' % inner
         parts.add('%s[%s]<-%s' % (m[0] if both else cls, roles[slot], child))
-    if not parts: return cls if cls.startswith('JoinedStr') else e_shape(m)
+    if not parts: return cls if cls.startswith('JoinedStr') else E_ALONE.get(m[0], e_shape(m))
     return ' & '.join(sorted(parts))
 
 def e_render(s):
